@@ -77,9 +77,12 @@ def SeedPerm.id : SeedPerm := ⟨fun l => l, fun _ => .refl _⟩
 def SeedPerm.rev : SeedPerm := ⟨List.reverse, fun l => List.reverse_perm l⟩
 
 /-- A dict with string keys (keys pairwise distinct by construction). -/
-def Store := { l : Assoc // (l.map Prod.fst).Nodup }
+structure Store where
+  val : Assoc
+  property : (val.map Prod.fst).Nodup
 
-instance : DecidableEq Store := inferInstanceAs (DecidableEq { l : Assoc // (l.map Prod.fst).Nodup })
+instance : DecidableEq Store := fun a b =>
+  decidable_of_iff (a.val = b.val) (by cases a; cases b; simp)
 
 def Store.empty : Store := ⟨[], List.nodup_nil⟩
 
@@ -132,17 +135,19 @@ def State.fresh : State := {}
 def sameKey (kind : String) (p : Payload) (ops : List Nat) (e : ExprInfo) : Bool :=
   e.kind == kind && e.payload == p && e.operands == ops
 
-/-- `Context._register_expression`: return the existing structurally equal expression, or append a new
-one with `intkey = _expression_counter` and `origin = _stack_name`. -/
+/-- Append a new expression with `intkey = _expression_counter` and `origin = _stack_name`. -/
+def appendExpr (st : State) (kind : String) (p : Payload) (ops : List Nat) : State × Nat :=
+  ({ st with
+      exprs := st.exprs ++ [{ kind := kind, payload := p, operands := ops,
+                              intkey := st.exprCounter, origin := st.stackName }]
+      exprCounter := st.exprCounter + 1 },
+   st.exprs.length)
+
+/-- `Context._register_expression`: return the existing structurally equal expression, or append a new one. -/
 def mkExpr (st : State) (kind : String) (p : Payload) (ops : List Nat) : State × Nat :=
   match st.exprs.findIdx? (sameKey kind p ops) with
   | some i => (st, i)
-  | none =>
-    ({ st with
-        exprs := st.exprs ++ [{ kind := kind, payload := p, operands := ops,
-                                intkey := st.exprCounter, origin := st.stackName }]
-        exprCounter := st.exprCounter + 1 },
-     st.exprs.length)
+  | none => appendExpr st kind p ops
 
 def updAt (l : List ExprInfo) (i : Nat) (f : ExprInfo → ExprInfo) : List ExprInfo :=
   match l, i with
@@ -170,23 +175,30 @@ def commit (st : State) (id : Nat) (nm : String) : State × String :=
   ({ st with refValues := st.refValues.set nm id
              exprs := updAt st.exprs id (fun e => { e with ref := some nm }) }, nm)
 
-/-- `Context._register_reference(expr, ref_name)`. -/
-def register (p : SeedPerm) (st : State) (id : Nat) (origin : Origin) (name : String) : State × String :=
-  match st.refValues.get p name with
-  | none => commit st id name
+/-- The name `Context._register_reference(expr, ref_name)` settles on, given the registry `rv`.
+In the three `other is expr` branches Python asserts `expr.props["ref"] == name` (and in two of them
+returns the expression object instead of the name); they are unreachable while `_ref_values` and
+`props["ref"]` agree — `make_ref` returns a cached `props["ref"]` before it gets here — and the
+model simply re-commits the same name there. -/
+def chooseName (p : SeedPerm) (rv : Store) (id : Nat) (origin : Origin) (name : String) : String :=
+  match rv.get p name with
+  | none => name                               -- a new reference
   | some other =>
-    if other = id then (st, name)
+    if other = id then name                    -- already registered
     else
+      -- the name is used by another expression: prefix the origin, then add a counter suffix
       let name2 := renderOrigin origin ++ name
-      match st.refValues.get p name2 with
+      match rv.get p name2 with
       | none =>
         -- `other is None`: the loop body never runs and candidate 0 is taken WITHOUT a lookup
-        commit st id (suffixed name2 0)
+        suffixed name2 0
       | some o2 =>
-        if o2 = id then (st, name2)
-        else
-          let r := suffixLoop (st.refValues.get p) id name2 (st.refValues.val.length + 1) 0
-          if r.2 then commit st id r.1 else (st, r.1)
+        if o2 = id then name2
+        else (suffixLoop (rv.get p) id name2 (rv.val.length + 1) 0).1
+
+/-- `Context._register_reference(expr, ref_name)`. -/
+def register (p : SeedPerm) (st : State) (id : Nat) (origin : Origin) (name : String) : State × String :=
+  commit st id (chooseName p st.refValues id origin name)
 
 /-! ### `make_ref` -/
 
@@ -213,33 +225,37 @@ def firstNamed (exprs : List ExprInfo) (ops : List Nat) : Bool :=
     | some e => e.refName.isSome
     | none => false
 
-/-- `make_ref(expr)`; `ks` renders the construction counter (`str(expr.intkey)`), `fuel` bounds the
-recursion through operands (operands are older expressions, so `fuel > id` suffices). -/
+/-- Body of `make_ref(expr)` for the registered expression `e` with index `id`; `rec` is `make_ref` for
+the operands, `ks` renders the construction counter (`str(expr.intkey)`). -/
+def makeRefBody (ks : Nat → String) (p : SeedPerm) (rec : State → Nat → State × String)
+    (st : State) (id : Nat) (e : ExprInfo) : State × String :=
+  match e.ref with
+  | some r => (st, r)                      -- existing reference name
+  | none =>
+    match e.refName with
+    | some rn => register p st id e.origin rn
+    | none =>
+      -- generated name; never registered (`if ref_name is None: return ref`)
+      match e.payload with
+      | .sym n _ => (st, "symbol_" ++ n.render)
+      | .const ident _ => (st, "constant_" ++ ident)
+      | .node =>
+        if e.kind == "absolute" then
+          match e.operands with
+          | o :: _ => ((rec st o).1, "abs_" ++ (rec st o).2)
+          | [] => (st, "abs_?")
+        else if firstNamed st.exprs e.operands then
+          ((threadMap rec st e.operands).1, joinU (e.kind :: (threadMap rec st e.operands).2))
+        else (st, e.kind ++ "_" ++ ks e.intkey)
+
+/-- `make_ref(expr)`; `fuel` bounds the recursion through operands (operands are older expressions,
+so `fuel > id` suffices). -/
 def makeRef (ks : Nat → String) (p : SeedPerm) : Nat → State → Nat → State × String
   | 0, st, _ => (st, "?")
   | fuel + 1, st, id =>
     match st.exprs[id]? with
     | none => (st, "?")
-    | some e =>
-      match e.ref with
-      | some r => (st, r)                      -- existing reference name
-      | none =>
-        match e.refName with
-        | some rn => register p st id e.origin rn
-        | none =>
-          -- generated name; never registered (`if ref_name is None: return ref`)
-          match e.payload with
-          | .sym n _ => (st, "symbol_" ++ n.render)
-          | .const ident _ => (st, "constant_" ++ ident)
-          | .node =>
-            if e.kind == "absolute" then
-              match e.operands with
-              | o :: _ => let r := makeRef ks p fuel st o; (r.1, "abs_" ++ r.2)
-              | [] => (st, "abs_?")
-            else if firstNamed st.exprs e.operands then
-              let r := threadMap (makeRef ks p fuel) st e.operands
-              (r.1, joinU (e.kind :: r.2))
-            else (st, e.kind ++ "_" ++ ks e.intkey)
+    | some e => makeRefBody ks p (makeRef ks p fuel) st id e
 
 /-! ### Operations of a tracing request -/
 
@@ -274,7 +290,8 @@ def step (amb : Ambient) (st : State) : Op → Ambient × State × Out
     match st.defaultLike with
     | some i => (amb, st, .id i)
     | none =>
-      let r := mkExpr st "symbol" (.sym (.anon amb.tmpCounter) t) []
+      -- the name `_tmp{n}` is fresh (modelling assumption), so the hash-consing lookup misses
+      let r := appendExpr st "symbol" (.sym (.anon amb.tmpCounter) t) []
       ({ amb with tmpCounter := amb.tmpCounter + 1 }, { r.1 with defaultLike := some r.2 }, .id r.2)
   | .const ident ty like =>
     let r := mkExpr st "constant" (.const ident ty) [like]
@@ -348,26 +365,27 @@ def firstNamedS (sk : List Skel) (ops : List Nat) : Bool :=
     | some e => e.named
     | none => false
 
+/-- Body of `refSafeS` for one expression skeleton; `safe` is the guard for the operands. -/
+def bodySafe (safe : List Skel → Nat → Bool) (sk : List Skel) (e : Skel) : Bool :=
+  if e.named then true
+  else if e.shape == 1 then false
+  else if e.shape != 3 then true
+  else if e.isAbs then
+    match e.operands with
+    | o :: _ => safe sk o
+    | [] => true
+  else if firstNamedS sk e.operands then e.operands.all (safe sk)
+  else true
+
 /-- `make_ref` on this expression never reads the name of an anonymous symbol. -/
 def refSafeS (sk : List Skel) : Nat → Nat → Bool
   | 0, _ => true
   | fuel + 1, id =>
     match sk[id]? with
     | none => true
-    | some e =>
-      if e.named then true
-      else if e.shape == 1 then false
-      else if e.shape != 3 then true
-      else if e.isAbs then
-        match e.operands with
-        | o :: _ => refSafeS sk fuel o
-        | [] => true
-      else if firstNamedS sk e.operands then e.operands.all (refSafeS sk fuel)
-      else true
+    | some e => bodySafe (fun sk i => refSafeS sk fuel i) sk e
 
 def refSafe (st : State) (id : Nat) : Bool :=
-  -- an expression whose name is already cached returns the cached (registered, user-derived) name
-  (match st.exprs[id]? with | some e => e.ref.isSome | none => false) ||
   refSafeS (st.exprs.map skel) (fuelOf st) id
 
 /-- Every EMITTED `ref` of the request, at the moment it is executed, is safe. -/
